@@ -289,6 +289,11 @@ def r3_no_custom_protocol(m):
                 if bad:
                     r.fail("%s.__reduce__|%s" % (c["name"], bad[0][0]), "%s.__reduce__ re-creates `self.__class__` with %d arguments, but its subclass "
                            "%s takes %d: copying or pickling any tree that holds such an item raises TypeError" % (c["name"], nargs, bad[0][0], bad[0][1]), m.loc(f))
+            elif h in ("__deepcopy__", "__copy__") and any(isinstance(x.value, ast.Name) and x.value.id == "self" for x in ret):
+                r.ob(False)
+                r.fail("%s.%s|returns-self" % (c["name"], h), "%s.%s can return the object itself: every statement node of a copied tree then "
+                       "shares its reader item (.item: label, construct name, line) with the original, so changing the label or name "
+                       "on the copy changes what the original prints" % (c["name"], h), m.loc(f))
             else:
                 r.error("%s.%s: an unrecognised copy protocol on a reader item class" % (c["name"], h))
     return r
